@@ -44,6 +44,11 @@ CLAIMS = {
    text="Theorems C07_unwalked, C07_walked, C07_group_tallied_iff_matches on the model of collectSymbols/Categorize (nested refgroup forests built from gitconfig with implicit parents); reference_count is part of scan_correct. Tie: CLI JSON v1 reference_groups, JSON v2 refgroup.* and the verbose table for generated forests up to 14 levels deep. The full declarative characterisation of every tallied symbol is checked by the correspondence (model = code) but proved only in the parts listed; rendering totality is checked by running -v on deep forests (panic repaired in 063ce9f).",
    note="Trusted as for C06. Known finding: user groups named ignored/other/<g>.other collide with the synthetic buckets.",
    technique="Coq proof on executable model + differential correspondence through the CLI"),
+
+ "C15": dict(
+   text="Theorems C15_parse_roundtrip (parse(serialise(records)) = records for every record list with value-less keys, empty and multi-line values), C15_prefix_generated (Gallina generated from configKeyMatchesPrefix = model) and C15_prefix_boundary (prefix p selects exactly p and p.<rest>). Tie: real git is the reference parser: generated configuration across system/global/local/command scopes, GetConfig via apidriver vs the model on git's raw listing vs an independent NUL-first split, and refgroups visible in --json vs the RefOpts model.",
+   note="Trusted: Coq kernel, go2coq+GoSem, extraction, harness, git 2.39.5 `config --list -z`. The value-less-key defect was repaired (6bdd1c1; C15_parse_old_refuted). Known finding: subsection ending in '.'.",
+   technique="Coq proof + translator bridge + differential correspondence with git as reference parser"),
 }
 
 m = {
